@@ -57,6 +57,15 @@ def main(*, add_noise=None):
             for opt in tokamak.TokamakEquilibrium.nonorthogonal_options_factory.defaults
         ]
         + [opt for opt in BoutMesh.user_options_factory.defaults]
+        # options used by this script itself
+        + [
+            "grid_file",
+            "plot_regions",
+            "plot_mesh",
+            "plot_xlow",
+            "plot_ylow",
+            "plot_corners",
+        ]
     )
     unused_options = [opt for opt in options if opt not in possible_options]
     if unused_options != []:
